@@ -9,7 +9,7 @@
    cell st j q = the (offset, length) range of that element, is_cell = "same buffer and same range"
    (the sharing relation of the abstract list-of-arrays model: two list entries are the same array). *)
 From Coq Require Import ZArith List Bool Arith Lia.
-From NV Require Import C15.Model C15.ListLemmas C15.Invariant C15.Steps C15.Steps2 C15.Lemmas C15.Lemmas2 C15.Pending C15.Simulation C15.Links C15.Tractogram.
+From NV Require Import C15.Model C15.ListLemmas C15.Invariant C15.Steps C15.Steps2 C15.Lemmas C15.Lemmas2 C15.Pending C15.Simulation C15.Links C15.Tractogram C15.SimAll.
 Import ListNotations.
 
 (* offsets/lengths inside the written prefix <= capacity, every buffer carries one ascending chain
@@ -299,6 +299,31 @@ Theorem C15_links_fresh : forall st o, reachable st ->
 Proof. exact fresh_links. Qed.
 Print Assumptions C15_links_fresh.
 
+(* ---- ONE simulation theorem over the whole alphabet (SimAll.v).  Abstract state: per object (alive,
+   the list of ARRAY NAMES it holds, the pending elements of a cached build) + a store from names to
+   values; two list entries are the same array iff they carry the same name.  spec_rel a o a' r says,
+   from the abstract state alone, what operation o may do and what it returns (every refusal included):
+   a new object holds the parent's names (indexing, view constructor) or names nobody holds (copies,
+   out-of-place results, constructor, concatenate); assignments and in-place operators keep all names
+   and update the store per name (element-by-element loop `aloop` for a sequence operand / source);
+   growth gives the grown object the list-model contents and leaves its names OPEN except that it never
+   comes to share an array with another object unless it already did — "growth cuts links": finding
+   S-C15d is part of the specification; everything else (names, values, pending elements of every
+   other object) is untouched. *)
+Theorem C15_simulation_all : forall st o, reachable st ->
+  spec_rel (absS st) o (absS (fst (step st o))) (snd (step st o)).
+Proof. exact simulation_all. Qed.
+Print Assumptions C15_simulation_all.
+
+(* for EVERY history: the abstraction of the state reached is reached by a run of the list-of-arrays
+   machine (arun = spec_rel step after step) with the same outputs, and what object k shows — list(seq_k)
+   — is what the abstract state holds for it *)
+Theorem C15_histories_list_model : forall ops,
+  arun (absS init) ops (absS (exec init ops)) (results init ops) /\
+  forall k, k < length (seqs (exec init ops)) -> conts (absS (exec init ops)) k = C (exec init ops) k.
+Proof. exact (fun ops => histories_list_model ops init (ex_intro _ [] eq_refl)). Qed.
+Print Assumptions C15_histories_list_model.
+
 (* ---- growing a view, a copy or any derived sequence (append with or without cache_build,
    finalize_append, extend of a list / generator / sequence / itself) never changes any element
    of any other sequence object, nor the object itself *)
@@ -406,6 +431,26 @@ Theorem C15_own_contents_extend_refused : forall st i bpr pre good extra, reacha
   C st' i = spec_extend (C st i) good /\ scache (getseq st i) = None.
 Proof. exact own_extend_bad. Qed.
 Print Assumptions C15_own_contents_extend_refused.
+
+(* apply_affine after fix 3ae30612 (S-C15k): the branch condition is `_is_view or is_sliced_view`
+   (affine_elementwise); for EVERY view the element-wise branch runs and alters exactly the elements
+   the view contains, once per occurrence, in every object holding that very array, and nothing else.
+   (A non-view tractogram: the whole buffer in place, or — np.dot(out=) refusing, e.g. float32 points —
+   a NEW array, after which its views are detached: "none" of the shared elements, the same mechanism
+   as S-C15d: the object moves to another buffer.  Not modelled; exercised by the harness.) *)
+Theorem C15_tractogram_apply_affine_view : forall st c f dt, reachable st -> is_live st c = true ->
+  is_view (getseq st c) = true -> offs (getseq st c) <> [] ->
+  affine_elementwise st c = true /\
+  let st' := fst (step st (OOp c f true dt)) in
+  seqs st' = seqs st /\
+  forall j q, j < length (seqs st) -> q < length (offs (getseq st j)) ->
+    (sbuf (getseq st j) = sbuf (getseq st c) -> In (cell st j q) (pairs (getseq st c)) ->
+       0 < occ (cell st j q) (pairs (getseq st c)) /\
+       V st' j q = iter (occ (cell st j q) (pairs (getseq st c))) (map (apply_fn f)) (V st j q)) /\
+    (sbuf (getseq st j) <> sbuf (getseq st c) \/ ~ In (cell st j q) (pairs (getseq st c)) ->
+       V st' j q = V st j q).
+Proof. exact tapply_affine_view. Qed.
+Print Assumptions C15_tractogram_apply_affine_view.
 
 (* ---- the four further operations: refused append, shrink_data(), seq[idx, cols], concatenate(axis=1) *)
 Theorem C15_append_refused_nothing : forall st i, fst (step st (OAppendBad i)) = st /\
